@@ -170,8 +170,19 @@ func verifReachable(root any, target any) bool { return false }
 // the executor encoding/json is a stub: json.Unmarshal of this document
 // yields s or fails.
 func verifJSONDoc(s string) []byte {
-	b, _ := json.Marshal(s)
-	return b
+	// control characters are spelled with the six-character \u00XX escape (a decoder must
+	// treat them like the two-character ones)
+	out := []byte{'"'}
+	for i := 0; i < len(s); i++ {
+		c := s[i]
+		switch {
+		case c < 0x20 || c == '"' || c == '\\' || c == 0x7f:
+			out = append(out, []byte(fmt.Sprintf("\\u%04x", c))...)
+		default:
+			out = append(out, c)
+		}
+	}
+	return append(out, '"')
 }
 
 // verifGuard declares that the given fields may only be read with mu held
